@@ -113,7 +113,7 @@ func init() {
 	recT := B{"recs": 3, "profs": 3}
 	truncated := HarnessRun{Name: "h_recover.Truncated", Quick: recQ, Thorough: recT, Split: recSplit,
 		Reach: []string{"clean", "cut-to-zero", "cut-inside-record-header", "cut-inside-record-data"}}
-	byteChanged := HarnessRun{Name: "h_recover.ByteChanged", Quick: B{"recs": 2, "profs": 1, "append_after": 1}, Thorough: B{"recs": 3, "profs": 2, "append_after": 1},
+	byteChanged := HarnessRun{Name: "h_recover.ByteChanged", Quick: B{"recs": 2, "profs": 1, "append_after": 1, "alloc_cap": 96, "conc_cap": 128}, Thorough: B{"recs": 3, "profs": 2, "append_after": 1, "alloc_cap": 128, "conc_cap": 160},
 		Split: []SplitDim{{"v1", func(map[string]int) int { return 1 }}, {"n", same("recs")}, {"prof", same("profs")}, {"times", two}, {"keys", two}, {"index", two},
 			{"region", func(b map[string]int) int { return 8 * b["recs"] }}},
 		Reach: []string{"byte-changed"}}
